@@ -1033,6 +1033,21 @@ impl Observer for AObserver {
         match ev.kind {
             EvKind::Kill => {
                 s.kills += 1;
+                // where the crash landed (evidence: every phase is hit)
+                let phase = if s.new_active {
+                    if s.wiped_this_inc { "fault.kill_phase.in_wipe" } else { "fault.kill_phase.in_new" }
+                } else if s.w_active {
+                    match s.w_gen_stores.len() {
+                        0 => "fault.kill_phase.write_before_odd_store",
+                        1 if s.w_field_stores == 0 => "fault.kill_phase.write_after_odd_store",
+                        1 if s.w_field_stores < 8 => "fault.kill_phase.write_mid_record",
+                        1 => "fault.kill_phase.write_before_even_store",
+                        _ => "fault.kill_phase.write_after_even_store",
+                    }
+                } else {
+                    "fault.kill_phase.between_operations"
+                };
+                s.out.probe(phase);
                 s.hist(json!({"kill_pid": ev.a, "step": ev.step}));
             }
             EvKind::IoErr => {
@@ -1259,8 +1274,15 @@ fn judge_open(st: &Arc<Mutex<AState>>, path: &Path, api: &'static str, outcome: 
                 let why = if b.len() < 16 { "short" } else if h.magic0 != P_MAGIC0 || h.magic1 != P_MAGIC1 { "magic" } else if h.version == 0 { "version0" } else if h.generation == 0 { "generation0" } else { "segsize" };
                 s.out.violate(&["C16"], "open_accepted_invalid", format!("api={api} why={why}"), format!("{api} accepted a file violating the documented predicate ({why}): len {} header {:?}", b.len(), h));
             }
-            if !valid && kind != 0 && !(kind == 2 || kind == 3) {
-                s.out.violate(&["C16"], "open_wrong_kind", format!("api={api} got={}", err_name(kind)), format!("{api} on invalid content returned {} errno {errno}, expected not-initialised or malformed", err_name(kind)));
+            if !valid && kind != 0 {
+                // "malformed" is documented as *initialised but malformed*: it is applicable only when
+                // magic, version and generation are in order; everything else is "not initialised"
+                let h = decode_segment(b);
+                let initialised = b.len() >= 16 && h.magic0 == P_MAGIC0 && h.magic1 == P_MAGIC1 && h.version != 0 && h.generation != 0;
+                let want = if initialised { 3 } else { 2 };
+                if kind != want {
+                    s.out.violate(&["C16"], "open_wrong_kind", format!("api={api} got={} want={}", err_name(kind), err_name(want)), format!("{api} on invalid content (len {} header {:?}) returned {} errno {errno}, the documented kind is {}", b.len(), h, err_name(kind), err_name(want)));
+                }
             }
         }
     }
